@@ -441,11 +441,13 @@ func (rQuery *RunningQueryState) withLockDeleteQuery() {
 		return
 	}
 
-	if !rQuery.isCancelled {
-		if rQuery.timeoutCancelFunc != nil { // nil if the query was never started
-			rQuery.timeoutCancelFunc()
-		}
+	// Always release the timeout context; otherwise its goroutine and timer of a cancelled
+	// query stay until the timeout expires.
+	if rQuery.timeoutCancelFunc != nil { // nil if the query was never started
+		rQuery.timeoutCancelFunc()
+	}
 
+	if !rQuery.isCancelled {
 		if rQuery.cleanupCallback != nil {
 			rQuery.cleanupCallback()
 		}
